@@ -31,7 +31,7 @@ def main():
                 open(p, 'w').write(s.replace(old, new, 1)); k += 4
             else:
                 print('unknown option', opts[k]); return 2
-        env = dict(os.environ, PY4HW_ROOT=d)
+        env = dict(os.environ, PY4HW_ROOT=d, VERIF_EVIDENCE_DIR=os.environ.get('VERIF_EVIDENCE_DIR', '/tmp/mutcheck-evidence'))
         return subprocess.run(cmd, env=env).returncode
     finally:
         shutil.rmtree(d, ignore_errors=True)
